@@ -126,6 +126,16 @@ func genGoMap(r *core.Rand, i int) (map[string]string, string) {
 		}
 		g[string(k)] = string(v)
 	}
+	// now and then all members of a hash-collision group among the keys (distinct strings that a
+	// set keyed by a 32-bit hash of the key takes for duplicates)
+	if r.Chance(1, 10) {
+		for _, k := range gen.CollisionGroups[r.Pick(len(gen.CollisionGroups))] {
+			if _, ok := g[k]; !ok {
+				g[k] = string(r.Bytes(r.Pick(6)))
+			}
+		}
+		class += "+collision-group"
+	}
 	return g, class
 }
 
